@@ -155,7 +155,8 @@ void WrappableGrid<T, DIM>::translate(
           this->buffer_[computeCellLinearIndex_(cellIndexes)] = emptyValue;
         }
       }
-      indexOffsetsAlongAxes_[0] = (numberOfCellsAlongXAxis + indexOffsetAlongXAxis) %
+      indexOffsetsAlongAxes_[0] = (indexOffsetsAlongAxes_[0] + numberOfCellsAlongXAxis +
+        indexOffsetAlongXAxis % static_cast<int>(numberOfCellsAlongXAxis)) %
         numberOfCellsAlongXAxis;
     }
 
@@ -176,7 +177,8 @@ void WrappableGrid<T, DIM>::translate(
         }
       }
 
-      indexOffsetsAlongAxes_[1] = (numberOfCellsAlongYAxis + indexOffsetAlongYAxis) %
+      indexOffsetsAlongAxes_[1] = (indexOffsetsAlongAxes_[1] + numberOfCellsAlongYAxis +
+        indexOffsetAlongYAxis % static_cast<int>(numberOfCellsAlongYAxis)) %
         numberOfCellsAlongYAxis;
     }
   } else {
@@ -213,7 +215,8 @@ void WrappableGrid<T, DIM>::translate(
           }
         }
       }
-      indexOffsetsAlongAxes_[0] = (numberOfCellsAlongXAxis + indexOffsetAlongXAxis) %
+      indexOffsetsAlongAxes_[0] = (indexOffsetsAlongAxes_[0] + numberOfCellsAlongXAxis +
+        indexOffsetAlongXAxis % static_cast<int>(numberOfCellsAlongXAxis)) %
         numberOfCellsAlongXAxis;
     }
 
@@ -236,7 +239,8 @@ void WrappableGrid<T, DIM>::translate(
           }
         }
       }
-      indexOffsetsAlongAxes_[1] = (numberOfCellsAlongYAxis + indexOffsetAlongYAxis) %
+      indexOffsetsAlongAxes_[1] = (indexOffsetsAlongAxes_[1] + numberOfCellsAlongYAxis +
+        indexOffsetAlongYAxis % static_cast<int>(numberOfCellsAlongYAxis)) %
         numberOfCellsAlongYAxis;
     }
 
@@ -262,7 +266,8 @@ void WrappableGrid<T, DIM>::translate(
           }
         }
       }
-      indexOffsetsAlongAxes_[2] = (numberOfCellsAlongZAxis + indexOffsetAlongZAxis) %
+      indexOffsetsAlongAxes_[2] = (indexOffsetsAlongAxes_[2] + numberOfCellsAlongZAxis +
+        indexOffsetAlongZAxis % static_cast<int>(numberOfCellsAlongZAxis)) %
         numberOfCellsAlongZAxis;
     }
   }
